@@ -256,6 +256,65 @@ def dc_validator_defs(repo: Path):
     return [n.name for n in tree.body if isinstance(n, ast.FunctionDef) and n.name not in ("validate_field", "validate_fields")]
 
 
+# ---- run-time writes to the parsing configuration (renderer.md_config / env.myst_config)
+MUTATORS = {"add", "update", "append", "extend", "insert", "discard", "remove", "pop", "popitem", "clear", "setdefault",
+            "sort", "reverse", "difference_update", "intersection_update", "symmetric_difference_update", "__setitem__",
+            "__delitem__"}
+CFG_ATTRS = ("md_config", "myst_config")
+ALIAS_OK = {("myst_parser/parsers/sphinx_.py", "parse")}     # config = ...env.myst_config ; only passed on
+
+
+def config_writes(repo: Path):
+    """Every place of the package that writes to a field of the parsing configuration object:
+    kind 'inplace' (mutates the container held by the field) or 'rebind' (assigns the attribute)."""
+    sites = []
+    for p in sorted((repo / "myst_parser").rglob("*.py")):
+        rel = "myst_parser/" + p.relative_to(repo / "myst_parser").as_posix()
+        tree = ast.parse(p.read_text())
+        parent = {}
+        for n in ast.walk(tree):
+            for ch in ast.iter_child_nodes(n):
+                parent[ch] = n
+
+        def func_of(n):
+            while n in parent:
+                n = parent[n]
+                if isinstance(n, (ast.FunctionDef, ast.Lambda)):
+                    return getattr(n, "name", "<lambda>")
+            return "<module>"
+        for n in ast.walk(tree):
+            # aliases of the configuration object
+            if isinstance(n, ast.Assign) and isinstance(n.value, ast.Attribute) and n.value.attr in CFG_ATTRS \
+                    and not (isinstance(n.targets[0], ast.Attribute) and n.targets[0].attr in CFG_ATTRS):
+                if (rel, func_of(n)) not in ALIAS_OK:
+                    raise Untranslatable(f"{rel}:{n.lineno}: the configuration object is bound to another name: {ast.unparse(n)[:80]}")
+                name = n.targets[0].id if isinstance(n.targets[0], ast.Name) else None
+                fn = n
+                while fn in parent and not isinstance(fn, ast.FunctionDef):
+                    fn = parent[fn]
+                for u in ast.walk(fn):
+                    if isinstance(u, ast.Name) and u.id == name and isinstance(u.ctx, ast.Load):
+                        pu = parent.get(u)
+                        if not (isinstance(pu, ast.Call) and u in pu.args) and not (isinstance(pu, ast.Assign)):
+                            raise Untranslatable(f"{rel}:{u.lineno}: alias of the configuration object used other than as an argument")
+            if not (isinstance(n, ast.Attribute) and isinstance(n.value, ast.Attribute) and n.value.attr in CFG_ATTRS):
+                continue
+            field, par = n.attr, parent.get(n)
+            kind = None
+            if isinstance(n.ctx, (ast.Store, ast.Del)):
+                kind = "rebind"
+            elif isinstance(par, ast.Attribute) and par.attr in MUTATORS and isinstance(parent.get(par), ast.Call) \
+                    and parent[par].func is par:
+                kind = "inplace"
+            elif isinstance(par, ast.Subscript) and par.value is n and isinstance(par.ctx, (ast.Store, ast.Del)):
+                kind = "inplace"
+            elif isinstance(par, ast.AugAssign) and par.target is n:
+                kind = "inplace"
+            if kind:
+                sites.append({"file": rel, "line": n.lineno, "func": func_of(n), "field": field, "kind": kind})
+    return sites
+
+
 def generate(repo: Path):
     src = (repo / SRC).read_text()
     tree = ast.parse(src)
@@ -363,8 +422,19 @@ def generate(repo: Path):
               "Definition optparse_rules : list (ocond * okind) := ["]
     lines.append(";\n".join(f"  ({r['cond']}, {r['kind']})  (* if {cmt(r['src'])} *)" for r in rules))
     lines += ["].", ""]
+    writes = config_writes(repo)
+    names = {f["name"] for f in fields}
+    for w in writes:
+        if w["field"] not in names:
+            raise Untranslatable(f"{w['file']}:{w['line']}: write to an unknown configuration field {w['field']}")
+    inplace = sorted({w["field"] for w in writes if w["kind"] == "inplace"})
+    lines += ["(* fields of the parsing configuration whose container some code of the package mutates IN PLACE at run",
+              "   time (X.md_config.<field>.add(..) etc.): " + cmt("; ".join(f"{w['file']}:{w['line']} {w['func']} {w['field']} {w['kind']}" for w in writes)) + " *)",
+              "Definition inplace_written_fields : list str := ["]
+    lines.append(";\n".join(f"  {coq_str(k)}  (* {cmt(k)} *)" for k in inplace))
+    lines += ["].", ""]
     text = "\n".join(lines)
-    return text, {"fields": fields, "known_extensions": known, "optparse_rules": rules,
+    return text, {"fields": fields, "known_extensions": known, "optparse_rules": rules, "config_writes": writes,
                   "dc_validator_defs": dc_validator_defs(repo), "customs": sorted(customs),
                   "hash": hashlib.sha256(src.encode()).hexdigest()[:16], "optparse_hash": opt_hash}
 
